@@ -1,62 +1,132 @@
 --------------------------- MODULE RegistryTrace ---------------------------
 (***************************************************************************)
-(* Trace validation for the decoration registry (C17).  The log holds one  *)
-(* line per registry operation in the order in which the operations took   *)
-(* effect: the hook of the verif build fires inside the critical section   *)
-(* and stamps a sequence number under the registry's own lock, so the      *)
-(* order is the linearization order, not a guess.  The specification is    *)
-(* the sequential registry of Registry.tla (the Body step): every lookup   *)
-(* and listing must be the answer of that registry at its position.        *)
-(* "probe" lines report whether a second operation stayed blocked while a  *)
-(* first one was held inside its critical section; that is required        *)
-(* whenever one of the two is a registration (readers may overlap).        *)
+(* Trace validation for the decoration registry (C17).                     *)
+(*                                                                         *)
+(* The log holds TWO lines per registry operation, "call" and "ret",       *)
+(* stamped by one atomic clock of the driver immediately before the call   *)
+(* and immediately after its return, and sorted by stamp.  Nothing inside  *)
+(* the library is instrumented: the validator knows only the real-time     *)
+(* order (A precedes B iff A returned before B was called), and lets the   *)
+(* moment at which an operation takes effect be anywhere inside its        *)
+(* interval -- an internal step of the specification, as in Registry.tla   *)
+(* where the body step lies between lock and unlock.                       *)
+(*                                                                         *)
+(* What the property promises of an execution with overlapping calls is    *)
+(* exactly what is checked (a "regular register" per name, no more):       *)
+(*   lookup   the result is a decoration registered under that name by a   *)
+(*            registration that did not begin after the lookup returned    *)
+(*            and that had not been overwritten -- by a registration that  *)
+(*            began after it returned and returned before the lookup was   *)
+(*            called -- or, if no registration of the name returned before *)
+(*            the lookup was called, possibly what the name denoted at the *)
+(*            start (the empty decoration for a name never registered);    *)
+(*   listing  sorted, duplicate-free, contains every name whose first      *)
+(*            registration returned before the listing was called and all  *)
+(*            built-ins, and nothing that no registration begun before the *)
+(*            listing returned could have put there.                       *)
+(* With calls that do not overlap (the forced schedules generated from     *)
+(* Registry.tla, and the quiescent read-back after every concurrent run)   *)
+(* this is the sequential registry: the latest registration wins.  A lock, *)
+(* a readers/writer lock, a copy-on-write map and a concurrent map all     *)
+(* satisfy it; freedom from data races is the race detector's business.    *)
+(*                                                                         *)
+(* State: per name the registrations that a lookup called now could still  *)
+(* see (live), the registrations in flight (open), and for every lookup or *)
+(* listing in flight what it may return (grows when a registration is      *)
+(* called during its interval).  No growing history is kept.               *)
 (***************************************************************************)
 EXTENDS Integers, Sequences, FiniteSets, TLC, Json, CSV
 
 CONSTANTS TraceFile, MisFile
 Trace == ndJsonDeserialize(TraceFile)
 
-VARIABLES reg, l, nmis
-vars == <<reg, l, nmis>>
+VARIABLES live,    \* [name -> set of [did, end]]: completed registrations not yet certainly overwritten
+          open,    \* [goroutine -> [name, did, start]]: registrations called and not yet returned
+          rd,      \* [goroutine -> [name, allowed]]: lookups in flight and what they may return
+          ls,      \* [goroutine -> [must, may]]: listings in flight
+          l, nmis, cnt
+vars == <<live, open, rd, ls, l, nmis, cnt>>
 
 Empty == "EMPTY"
-Lookup(r, n) == IF n \in DOMAIN r THEN r[n] ELSE Empty
 Range(s) == {s[i] : i \in DOMAIN s}
+Without(f, k) == [x \in (DOMAIN f) \ {k} |-> f[x]]
+With(f, k, v) == [x \in (DOMAIN f) \cup {k} |-> IF x = k THEN v ELSE f[x]]
+Bump(c, f) == With(c, f, (IF f \in DOMAIN c THEN c[f] ELSE 0) + 1)
 
-Init == reg = <<>> /\ l = 1 /\ nmis = 0
+Init == live = <<>> /\ open = <<>> /\ rd = <<>> /\ ls = <<>> /\ l = 1 /\ nmis = 0 /\ cnt = <<>>
+
+\* what a lookup of n called now may see: the live registrations and those in flight;
+\* a name with nothing live denotes the empty decoration
+LiveDids(n) == IF n \in DOMAIN live THEN {x.did : x \in live[n]} ELSE {Empty}
+OpenDids(n) == {open[g].did : g \in {h \in DOMAIN open : open[h].name = n}}
+Known == DOMAIN live
+OpenNames == {open[g].name : g \in DOMAIN open}
 
 Bad(ev) ==
-  CASE ev.ev = "named"  -> ev.res # Lookup(reg, ev.name)
-    [] ev.ev = "list"   -> \/ Range(ev.res) # DOMAIN reg
-                           \/ Len(ev.res) # Cardinality(DOMAIN reg)
-                           \/ ev.sorted # 1
+  CASE ev.ev = "ret" /\ ev.op = "named" -> ev.g \notin DOMAIN rd \/ ev.res \notin rd[ev.g].allowed
+    [] ev.ev = "ret" /\ ev.op = "list" ->
+         \/ ev.g \notin DOMAIN ls
+         \/ ev.sorted # 1 \/ Len(ev.res) # Cardinality(Range(ev.res))
+         \/ ~(ls[ev.g].must \subseteq Range(ev.res))
+         \/ ~(Range(ev.res) \subseteq ls[ev.g].may)
     \* an override made before the registry was first read must be what the name denotes afterwards
-    [] ev.ev = "init"   -> ev.early # <<>> /\ \A i \in DOMAIN ev.names : ev.names[i][1] = ev.early[1] => ev.names[i][2] # ev.early[2]
+    [] ev.ev = "init" -> ev.early # <<>> /\ \A i \in DOMAIN ev.names : ev.names[i][1] = ev.early[1] => ev.names[i][2] # ev.early[2]
     \* quiescent style listing (auto.ListStyles): sorted and showing every registered name and the four sub-packages
-    [] ev.ev = "styles" -> ev.sorted # 1 \/ ~((DOMAIN reg \cup {"csv", "html", "json", "markdown"}) \subseteq Range(ev.res))
-    [] ev.ev = "probe"  -> ev.must = 1 /\ ev.blocked # 1    \* a registration excludes everything; reads may overlap
-    [] ev.ev = "nohook" -> TRUE
+    [] ev.ev = "styles" -> ev.sorted # 1 \/ ~((Known \cup {"csv", "html", "json", "markdown"}) \subseteq Range(ev.res))
     [] OTHER -> FALSE
 
-Facet(ev) == CASE ev.ev = "probe" -> "reg.mutex" [] ev.ev = "nohook" -> "reg.mutex" [] ev.ev = "init" -> "reg.early"
-               [] OTHER -> "reg." \o ev.ev
+Facet(ev) == CASE ev.ev = "init" -> "reg.early" [] ev.ev = "styles" -> "reg.styles" [] OTHER -> "reg." \o ev.op
 
-Done(n) == CSVWrite("%1$s", <<ToJson([done |-> TRUE, lines |-> Len(Trace), mismatches |-> n])>>, MisFile)
+Hint(ev) ==
+  CASE ev.ev = "ret" /\ ev.op = "named" /\ ev.g \in DOMAIN rd -> [allowed |-> rd[ev.g].allowed]
+    [] ev.ev = "ret" /\ ev.op = "list" /\ ev.g \in DOMAIN ls ->
+         [missing |-> ls[ev.g].must \ Range(ev.res), unexpected |-> Range(ev.res) \ ls[ev.g].may]
+    [] OTHER -> <<>>
+
+Done(n, c) == CSVWrite("%1$s", <<ToJson([done |-> TRUE, lines |-> Len(Trace), mismatches |-> n, compared |-> c])>>, MisFile)
+
+Step(ev) ==
+  CASE ev.ev = "init" ->
+         /\ live' = [n \in {ev.names[i][1] : i \in DOMAIN ev.names} |->
+                       {[did |-> ev.names[CHOOSE i \in DOMAIN ev.names : ev.names[i][1] = n][2], end |-> 0]}]
+         /\ open' = <<>> /\ rd' = <<>> /\ ls' = <<>>
+    [] ev.ev = "call" /\ ev.op = "register" ->
+         /\ open' = With(open, ev.g, [name |-> ev.name, did |-> ev.did, start |-> ev.t])
+         \* every lookup of that name and every listing in flight may see it from now on
+         /\ rd' = [g \in DOMAIN rd |-> IF rd[g].name = ev.name
+                                         THEN [rd[g] EXCEPT !.allowed = @ \cup {ev.did}] ELSE rd[g]]
+         /\ ls' = [g \in DOMAIN ls |-> [ls[g] EXCEPT !.may = @ \cup {ev.name}]]
+         /\ UNCHANGED live
+    [] ev.ev = "ret" /\ ev.op = "register" ->
+         LET w == open[ev.g]
+             old == IF w.name \in DOMAIN live THEN live[w.name] ELSE {}
+         IN \* what returned before this registration was called is overwritten for every later lookup
+            /\ live' = With(live, w.name, {x \in old : x.end > w.start} \cup {[did |-> w.did, end |-> ev.t]})
+            /\ open' = Without(open, ev.g)
+            /\ UNCHANGED <<rd, ls>>
+    [] ev.ev = "call" /\ ev.op = "named" ->
+         /\ rd' = With(rd, ev.g, [name |-> ev.name, allowed |-> LiveDids(ev.name) \cup OpenDids(ev.name)])
+         /\ UNCHANGED <<live, open, ls>>
+    [] ev.ev = "ret" /\ ev.op = "named" ->
+         /\ rd' = Without(rd, ev.g) /\ UNCHANGED <<live, open, ls>>
+    [] ev.ev = "call" /\ ev.op = "list" ->
+         /\ ls' = With(ls, ev.g, [must |-> Known, may |-> Known \cup OpenNames])
+         /\ UNCHANGED <<live, open, rd>>
+    [] ev.ev = "ret" /\ ev.op = "list" ->
+         /\ ls' = Without(ls, ev.g) /\ UNCHANGED <<live, open, rd>>
+    [] OTHER -> UNCHANGED <<live, open, rd, ls>>
 
 Next ==
   /\ l <= Len(Trace)
   /\ l' = l + 1
   /\ LET ev == Trace[l] IN
-     /\ reg' = CASE ev.ev = "init" -> [n \in {ev.names[i][1] : i \in DOMAIN ev.names} |->
-                                         ev.names[CHOOSE i \in DOMAIN ev.names : ev.names[i][1] = n][2]]
-                 [] ev.ev = "register" -> [n \in DOMAIN reg \cup {ev.name} |-> IF n = ev.name THEN ev.did ELSE reg[n]]
-                 [] OTHER -> reg
+     /\ Step(ev)
      /\ nmis' = IF Bad(ev) THEN nmis + 1 ELSE nmis
+     /\ cnt' = IF ev.ev = "ret" THEN Bump(cnt, "reg." \o ev.op) ELSE IF ev.ev \in {"init", "styles"} THEN Bump(cnt, ev.ev) ELSE cnt
      /\ (~Bad(ev) \/ CSVWrite("%1$s", <<ToJson([scen |-> IF "scen" \in DOMAIN ev THEN ev.scen ELSE "", line |-> l,
-                                                facet |-> Facet(ev), op |-> ev.ev,
-                                                detail |-> [obs |-> ev,
-                                                            hint |-> IF ev.ev = "named" THEN <<Lookup(reg, ev.name)>> ELSE <<>>]])>>, MisFile))
-     /\ (l < Len(Trace) \/ Done(nmis'))
+                                                facet |-> Facet(ev), op |-> IF "op" \in DOMAIN ev THEN ev.op ELSE ev.ev,
+                                                detail |-> [obs |-> ev, hint |-> Hint(ev)]])>>, MisFile))
+     /\ (l < Len(Trace) \/ Done(nmis', cnt'))
 
 Spec == Init /\ [][Next]_vars
 =============================================================================
